@@ -30,6 +30,6 @@ fn dedupe<const SHAPE: u8>() {
     }
     std::mem::forget(out);
 }
-macro_rules! dd_h { ($($n:ident: $k:expr;)*) => { $(#[kani::proof] #[kani::unwind(5)] #[kani::stub(std::ptr::drop_in_place, no_drop)] #[kani::stub(core::ptr::drop_glue, no_glue)] fn $n() { dedupe::<$k>() })* } }
+macro_rules! dd_h { ($($n:ident: $k:expr;)*) => { $(#[kani::proof] #[kani::unwind(5)] #[kani::stub(std::ptr::drop_in_place, no_drop)] #[kani::stub(core::ptr::drop_glue, no_glue)] #[kani::stub(std::vec::Vec::extend_from_slice, extend_from_slice_model)] fn $n() { dedupe::<$k>() })* } }
 dd_h! { dedupe_class_twice: 0; dedupe_listener_around_other: 1; dedupe_plain_twice: 2; dedupe_distinct: 3; dedupe_across_spread: 4; dedupe_class_thrice: 5; }
 
